@@ -51,6 +51,9 @@ def _base(rng, tier):
         init = c04.gen_init(rng, cfg, want_part=True)            # stale part file
     else:
         init = c04.gen_init(rng, cfg)
+    if init.get("sub"):
+        body = list(body)
+        body.insert(rng.randint(0, max(0, len(body) - (1 if body and body[-1][0] == "r" else 0))), ["cd"])
     return {"cfg": cfg, "umask": rng.choice([0o022, 0o022, 0o077, 0, 0o027]), "init": init, "body": body,
             "body_exc": rng.random() < 0.15, "sched": [], "crash": None, "retry": True}
 
